@@ -36,7 +36,12 @@ commutative semiring of scalars):
 * T3 `c16_packA_slots/_length/_offset/_slot_unique`, `c16_packB_…`: the slot order written by
   `pack_a_block` / `pack_b_block` is, for every block size, tile size and edge panel, a bijection
   between the block's elements and the non-padding slots of the panels (`panel_stride = MR·cols`
-  resp. `rows·NR`, row-major inside), every other slot being zero.
+  resp. `rows·NR`, row-major inside), every other slot being zero.  `c16_packed_tile_dot`: a
+  kernel reading those panels as `simd_gemm` indexes them accumulates exactly the
+  `dot A B r c dStart (dEnd - dStart)` that T2 charges each call with (T3 feeds T2);
+  `c16_panels_match_tiles`: as many panels as tiles, so `gemm_block`'s panel slices are in bounds.
+  The model functions of T3 are driven against the real `pack_a_block`/`pack_b_block` (`pack`
+  requests of the harness).
 
 **Partial**: the micro-kernels (SIMD code, their use of the packed panels), floating-point
 rounding, the thread schedule (the model is the sequential order; per-tile order is what the
@@ -322,8 +327,10 @@ theorem c16_gemmImpl_accepts_iff_valid {k : BlockConsts} {kern : KernelCfg} {p :
     (alpha beta : α) (bias : Bias α) (A B : Nat → Nat → α) (C : OutMat α) :
     ((∃ out, gemmImpl k kern p alpha beta bias A B C = .ok out) →
       p.Ka = p.Kb ∧ biasLenBad p.rowBiasLen p.N = false ∧ biasLenBad p.colBiasLen p.M = false ∧
+        biasLenBad p.aQuantLen p.M = false ∧ biasLenBad p.bQuantLen p.N = false ∧
         p.outLen = p.M * p.N) ∧
     (p.Ka = p.Kb → biasLenBad p.rowBiasLen p.N = false → biasLenBad p.colBiasLen p.M = false →
+      biasLenBad p.aQuantLen p.M = false → biasLenBad p.bQuantLen p.N = false →
       p.outLen = p.M * p.N →
       (p.aPacked = none ∨ p.aPacked = some (prepackMeta k kern true p.Ka)) →
       (p.bPacked = none ∨ p.bPacked = some (prepackMeta k kern false p.Kb)) →
@@ -334,8 +341,8 @@ theorem c16_gemmImpl_accepts_iff_valid {k : BlockConsts} {kern : KernelCfg} {p :
     cases hp : gemmPath k kern p with
     | error e => rw [hp] at h; cases h
     | ok path => exact (gemmPath_ok hp).1
-  · intro hK hb1 hb2 hol ha hb
-    obtain ⟨path, hp⟩ := gemmPath_valid hK hb1 hb2 hol ha hb
+  · intro hK hb1 hb2 hq1 hq2 hol ha hb
+    obtain ⟨path, hp⟩ := gemmPath_valid hK hb1 hb2 hq1 hq2 hol ha hb
     unfold gemmImpl
     rw [hp]
     cases path with
@@ -469,5 +476,122 @@ example : packASlots 2 3 2 =
 example : packBSlots 2 2 3 =
     [some (0, 0), some (0, 1), some (1, 0), some (1, 1), some (0, 2), none, some (1, 2), none] := by
   decide
+
+/-! ## T3 ∘ kernel: a panel-reading micro-kernel computes the block dot product
+
+Connects T3 to T2: `runCalls` charges each kernel call with `dot A B r c dStart (dEnd - dStart)`.
+`panelDot` is what a kernel that reads the packed panels the way `simd_gemm` does (A panel element
+`(x, k)` at `x·depth + k`, B panel element `(k, y)` at `k·NR + y`, panel `i` at `i·panel_stride`)
+accumulates.  On the panels produced by `pack_a_block` / `pack_b_block` it is exactly that dot
+product, for every tile of the block including edge tiles. -/
+
+theorem sumFrom_shift {α : Type} [Add α] [Zero α] (f g : Nat → α) (a b : Nat) :
+    ∀ n, (∀ k, k < n → f (a + k) = g (b + k)) → sumFrom f a n = sumFrom g b n := by
+  intro n
+  induction n with
+  | zero => intro _; rfl
+  | succ n ih =>
+    intro h
+    simp only [sumFrom]
+    rw [ih (fun k hk => h k (by omega)), h n (by omega)]
+
+/-- **T3 ∘ kernel.** For the block `rows [rs, re) × depth [ds, de) × cols [cs, ce)`, the tile
+`(i, jt)` of the block and an element `(x, y)` of that tile that exists (`i·MR + x < re - rs`,
+`jt·NR + y < ce - cs`): the panel-reading kernel's accumulation over the packed panels equals
+`Σ_{k ∈ [ds, de)} A[rs + i·MR + x, k] · B[k, cs + jt·NR + y]`. -/
+theorem c16_packed_tile_dot {α : Type} [Add α] [Mul α] [Zero α] (A B : Nat → Nat → α)
+    {mr nr rs re ds de cs ce i jt x y : Nat} (hmr : 0 < mr)
+    (hx : x < mr) (hy : y < nr) (hrow : i * mr + x < re - rs) (hcol : jt * nr + y < ce - cs) :
+    panelDot (packAVals A mr rs re ds de) (packBVals B nr ds de cs ce) mr nr (de - ds) i jt x y =
+      dot A B (rs + (i * mr + x)) (cs + (jt * nr + y)) ds (de - ds) := by
+  unfold panelDot dot
+  apply sumFrom_shift
+  intro k hk
+  have hnr : 0 < nr := by omega
+  have hA : (packAVals A mr rs re ds de).getD (i * (mr * (de - ds)) + (x * (de - ds) + (0 + k))) 0 =
+      A (rs + (i * mr + x)) (ds + k) := by
+    unfold packAVals
+    rw [List.getD_eq_getElem?_getD, List.getElem?_map, Nat.zero_add,
+      packASlots_get mr (re - rs) (de - ds) hmr (by omega) hx hk]
+    simp [hrow]
+  have hB : (packBVals B nr ds de cs ce).getD (jt * ((de - ds) * nr) + ((0 + k) * nr + y)) 0 =
+      B (ds + k) (cs + (jt * nr + y)) := by
+    unfold packBVals
+    have hp : jt < divCeil (ce - cs) nr := by
+      have : ¬ divCeil (ce - cs) nr ≤ jt := by
+        rw [divCeil_le_iff hnr]; omega
+      omega
+    rw [List.getD_eq_getElem?_getD, List.getElem?_map, Nat.zero_add,
+      packBSlots_get nr (de - ds) (ce - cs) hp hk hy]
+    simp [hcol]
+  rw [hA, hB]
+
+example : panelDot (packAVals (fun r k => (10 * r + k : Int)) 2 0 3 0 2)
+    (packBVals (fun k c => (k + 3 * c : Int)) 2 0 2 0 3) 2 2 2 1 1 0 0 =
+    dot (fun r k => (10 * r + k : Int)) (fun k c => (k + 3 * c : Int)) 2 2 0 2 := by decide
+
+/-! ## Panel slices taken by `gemm_block` are in bounds -/
+
+theorem divCeil_mul_add {a x t : Nat} (ht : 0 < t) : divCeil (a * t + x) t = a + divCeil x t := by
+  unfold divCeil
+  rw [Nat.add_comm (a * t) x, Nat.add_mul_mod_self_right, Nat.add_mul_div_right x a ht]
+  split <;> omega
+
+/-- `gemm_block` enumerates `block_col_tile` over the column tiles of a column block and slices
+`b.data[block_col_tile·panel_stride .. +panel_stride]` (likewise row tiles / A panels).  The number
+of tiles `start/t .. ceil(end/t)` of block `i` equals the number `ceil((end-start)/t)` of panels
+that `pack_b_block` / `pack_a_block` write for that block (`c16_packB_length`,
+`c16_packA_length`), so with a freshly packed block every such slice is in bounds. -/
+theorem c16_panels_match_tiles {t bs n i q : Nat} (ht : 0 < t) (hbs : bs = q * t)
+    (hi : i * bs ≤ n) :
+    (tileRange (blockRange n bs i).1 (blockRange n bs i).2 t).length =
+      divCeil ((blockRange n bs i).2 - (blockRange n bs i).1) t := by
+  unfold tileRange
+  rw [List.length_range']
+  simp only [blockRange]
+  have hstart : i * bs / t = i * q := by
+    rw [hbs, ← Nat.mul_assoc, Nat.mul_div_cancel _ ht]
+  have hle : i * bs ≤ min (i * bs + bs) n := by omega
+  have hsplit : min (i * bs + bs) n = (i * q) * t + (min (i * bs + bs) n - i * bs) := by
+    have : i * q * t = i * bs := by rw [hbs, Nat.mul_assoc]
+    omega
+  rw [hstart]
+  conv => lhs; rw [hsplit, divCeil_mul_add ht]
+  omega
+
+example : (tileRange (blockRange 40 16 2).1 (blockRange 40 16 2).2 4).length = 2 ∧
+    (packBSlots 4 3 (40 - 32)).length = 2 * (3 * 4) := by decide
+
+/-- Summary of a `gemmPath` answer for the examples below: `(mc, nc, kc, #calls)` or the error. -/
+def pathSummary : Except GemmErr Path → Option (Nat × Nat × Nat × Nat) × Option GemmErr
+  | .error e => (none, some e)
+  | .ok .none => (some (0, 0, 0, 0), none)
+  | .ok (.gemv evs) => (some (0, 0, 0, evs.length), none)
+  | .ok (.gemm mc nc kc calls) => (some (mc, nc, kc, calls.length), none)
+
+def exKern : KernelCfg := { id := 4, mr := 6, nr := 16, elemSize := 4 }
+def exOther : KernelCfg := { id := 2, mr := 8, nr := 4, elemSize := 4 }
+/-- 70×300 · 300×40, A and B prepacked by kernel `by_`, 4 threads, row bias. -/
+def exProblem (by_ : KernelCfg) : Problem :=
+  { M := 70, Ka := 300, Kb := 300, N := 40, outLen := 2800, rowBiasLen := some 40,
+    colBiasLen := none, aQuantLen := none, bQuantLen := none,
+    aPacked := some (prepackMeta Generated.consts by_ true 300),
+    bPacked := some (prepackMeta Generated.consts by_ false 300),
+    bOther := false, bRowStride1 := false, threads := 4 }
+
+/-- A prepacked, accepted problem (LOW item of the audit): operands prepacked with the FMA
+kernel's tile sizes, same kernel at run time: accepted, two depth blocks, 2·3·12 kernel calls. -/
+example :
+    (∃ out, gemmImpl Generated.consts exKern (exProblem exKern) (2 : Int) 0 (.row fun c => c)
+        (fun r k => r + k) (fun k c => k - c) (fun _ _ => none) = .ok out) ∧
+    pathSummary (gemmPath Generated.consts exKern (exProblem exKern)) =
+      (some (66, 48, 256, 2 * 12 * 3), none) := by
+  refine ⟨?_, by decide⟩
+  exact (c16_gemmImpl_accepts_iff_valid _ _ _ _ _ _).2 rfl rfl rfl rfl rfl rfl (Or.inr rfl)
+    (Or.inr rfl)
+
+/-- ... and the same operands prepacked by a different kernel are rejected. -/
+example : pathSummary (gemmPath Generated.consts exKern (exProblem exOther)) =
+    (none, some .packedDataKernelMismatch) := by decide
 
 end RtenVerif.Gemm
